@@ -933,12 +933,22 @@ def m_pack(I, args, kwargs):
             if signed:
                 e = z3.If(e < 0, e + (1 << (8 * size)), e)
             bs = []
-            for i in range(size):
-                sh = 8 * (size - 1 - i)
-                t = e / (1 << sh) if sh else e
-                if i > 0:
-                    t = t % 256
-                bs.append(BSeg(z3.simplify(t)))
+            if size > 2 and not isinstance(v, (int, bool)):
+                # base-256 digits as fresh octets (exist and are unique in range): linear instead of div/mod
+                octs = [I.path.fresh_int("oct") for _ in range(size)]
+                tot = z3.IntVal(0)
+                for o in octs:
+                    I.path.assume(z3.And(o >= 0, o <= 255))
+                    tot = tot * 256 + o
+                I.path.assume(e == tot)
+                bs = [BSeg(o) for o in octs]
+            else:
+                for i in range(size):
+                    sh = 8 * (size - 1 - i)
+                    t = e / (1 << sh) if sh else e
+                    if i > 0:
+                        t = t % 256
+                    bs.append(BSeg(z3.simplify(t)))
             if order == "little":
                 bs.reverse()
             segs.extend(bs)
